@@ -747,12 +747,15 @@ func c33AllocPhase(r *verifmc.Report, decs []C33Decoder, cfg C33Config, sp *c33S
 		if skip {
 			continue
 		}
-		a := c33TotalAlloc()
-		for i := lo; i < hi; i++ {
-			run(sel[i-lo])
-		}
-		b := c33TotalAlloc()
 		r.Add("alloc_measured_inputs", int64(hi-lo))
+		a, b := uint64(0), uint64(c33AllocSlack+1)
+		if hi > len(seq) { // crafted / deferred inputs are expected to be large: measured one by one straight away
+			a = c33TotalAlloc()
+			for i := lo; i < hi; i++ {
+				run(sel[i-lo])
+			}
+			b = c33TotalAlloc()
+		}
 		if b-a <= c33AllocSlack {
 			r.Outcome("alloc:batch-within-slack")
 			continue
